@@ -363,6 +363,21 @@ func exprD(v ssa.Value, d int, seen *ectx) string {
 	case *ssa.UnOp:
 		switch x.Op {
 		case token.MUL:
+			// load of a multiply-assigned local: use the store that reaches it inside the same block
+			if al, ok := x.X.(*ssa.Alloc); ok && singleStore(al) == nil && x.Block() != nil {
+				var last *ssa.Store
+				for _, in := range x.Block().Instrs {
+					if in == ssa.Instruction(x) {
+						break
+					}
+					if st, ok := in.(*ssa.Store); ok && st.Addr == ssa.Value(al) {
+						last = st
+					}
+				}
+				if last != nil && !seen.m[last.Val] {
+					return exprD(last.Val, d+1, seen)
+				}
+			}
 			return exprD(x.X, d, seen)
 		case token.NOT:
 			return "!" + exprD(x.X, d+1, seen)
@@ -1289,6 +1304,14 @@ func classifyResult(w *World, h *ssa.Function, at ssa.Instruction, v ssa.Value, 
 				for _, ref := range *al.Referrers() {
 					if st, ok := ref.(*ssa.Store); ok && st.Addr == al {
 						stores++
+						// only a store whose value can still be in the slot at this return matters
+						q := &pathQ{kill: func(in ssa.Instruction) bool {
+							o, ok := in.(*ssa.Store)
+							return ok && o.Addr == al && o != st
+						}, target: func(in ssa.Instruction) bool { return in == at }}
+						if hit, _ := q.reach(st.Block(), instrIndex(st)+1); hit == nil {
+							continue
+						}
 						out = append(out, classifyResult(w, h, st, st.Val, wantNil, depth+1)...)
 					}
 				}
